@@ -26,7 +26,8 @@ var Atoms = map[string][]any{
 		1.5e-5, 1e-7, 1.5e-7, 1e-100, 2.5e-100, math.MaxFloat64, -math.MaxFloat64, math.SmallestNonzeroFloat64, 2.2250738585072014e-308,
 		1.0e+21, 12345678901234567890.0, 0.000001, 0.0000001, float64(float32(0.1)), 3.0e10, 2.0e-10},
 	"complex": {complex(1, 2), complex(1, -2), complex(-1.5, 0.5), complex(0, 0), complex(1e6, 1e-7), complex(1e21, -1e21), complex(3, 4),
-		complex(math.Copysign(0, -1), 0), complex(1.5e100, 2.5e-100)},
+		complex(math.Copysign(0, -1), 0), complex(1.5e100, 2.5e-100), complex(1.5, math.Copysign(0, -1)), complex(0, math.Copysign(0, -1)),
+		complex(math.Copysign(0, -1), math.Copysign(0, -1)), complex(-2.5, -1e-7)},
 	"rune": {'a', 'Z', '0', ' ', '\n', '\t', '\\', '\'', '"', rune(0), rune(0x7f), rune(0xa0), rune(0xe9), rune(0x20ac), rune(0x1f600), rune(0x10ffff),
 		rune(7), rune(0x1b), rune(0xfffd)},
 	"string": {"", "a", "hello world", "a\nb", "tab\there", `quote"inside`, `back\slash`, "Aé\U0001f600", "[1, 2](List)", "\a\b\f\r\v", "it's",
@@ -257,6 +258,8 @@ func purityValue(name string) any {
 		inner.SetValue("k", col.Set[any](notation).MakeFromArray([]any{int64(2), int64(1)}))
 		inner.SetValue("j", int64(3))
 		return col.List[any](notation).MakeFromArray([]any{inner, int64(5)})
+	case "deep7": // seven nested multi-item levels: within the limit of 8, but only just
+		return nest("List", 7, 2)
 	case "fail0": // fails at once: not a collection and not an intrinsic
 		return col.List[any](notation).MakeFromArray([]any{unknownIntrinsic{1}})
 	case "fail2": // fails two levels down, after text has been produced and the indentation raised
@@ -272,30 +275,43 @@ type PurityRec struct {
 	Detail string   `json:"detail"`
 }
 
-// Purity runs a call sequence on ONE notation and compares every successful
-// result with that of a fresh notation.
+// Purity runs a call sequence on ONE notation and on ONE formatter and
+// compares every successful result with that of fresh instances.
 func Purity(seq []string) PurityRec {
 	var rec = PurityRec{Seq: seq, Status: "pure"}
-	var shared = cdc.Notation().Make()
+	var sharedN = cdc.Notation().Make()
+	var sharedF = cdc.Formatter().Make()
+	var used = map[string]func(any) string{"notation": sharedN.FormatValue, "formatter": sharedF.FormatValue}
 	for k, name := range seq {
 		var v = purityValue(name)
-		var got, want string
-		var gotPanic, wantPanic bool
-		func() {
-			defer func() { gotPanic = recover() != nil }()
-			got = shared.FormatValue(v)
-		}()
+		var want string
+		var wantPanic bool
 		func() {
 			defer func() { wantPanic = recover() != nil }()
-			want = cdc.Notation().Make().FormatValue(v)
+			want = cdc.Formatter().Make().FormatValue(v)
 		}()
-		if gotPanic != wantPanic || got != want {
-			rec.Status = "impure"
-			rec.Detail = fmt.Sprintf("call %d (%s) on the used notation gives %q (panic %v), a fresh notation gives %q (panic %v)", k+1, name, got, gotPanic, want, wantPanic)
-			return rec
+		for _, who := range []string{"notation", "formatter"} {
+			var got string
+			var gotPanic bool
+			func() {
+				defer func() { gotPanic = recover() != nil }()
+				got = used[who](v)
+			}()
+			if gotPanic != wantPanic || got != want {
+				rec.Status = "impure"
+				rec.Detail = fmt.Sprintf("call %d (%s) on the used %s gives %q (panic %v), a fresh one gives %q (panic %v)", k+1, name, who, clipText(got), gotPanic, clipText(want), wantPanic)
+				return rec
+			}
 		}
 	}
 	return rec
+}
+
+func clipText(s string) string {
+	if len(s) > 300 {
+		return s[:300] + "..."
+	}
+	return s
 }
 
 // ---- totality of FormatValue: deep and self-containing values -----------------
